@@ -286,10 +286,12 @@ def expected(lib, case):
     def prims(M, binds, g):
         o = []
         for p in g['prims']:
-            o.append({'kind': p['kind'], 'material': material(binds, p['symbol']),
-                      'verts': [[sum(M[i][j] * v[j] for j in range(3)) + M[i][3] for i in range(3)] for v in g['verts']],
-                      'normals': None if not p['normals'] else
-                      [[sum(M[i][j] * n[j] for j in range(3)) for i in range(3)] for n in g['normals']]})
+            bv = [[sum(M[i][j] * v[j] for j in range(3)) + M[i][3] for i in range(3)] for v in g['verts']]
+            bn = None if not p['normals'] else [[sum(M[i][j] * n[j] for j in range(3)) for i in range(3)] for n in g['normals']]
+            # the individual shapes (triangles / polygons / lines) seen by iterating the bound primitive
+            shapes = [{'verts': [bv[r[0]] for r in poly], 'normals': None if bn is None else [bn[r[1]] for r in poly]}
+                      for poly in p['polys']]
+            o.append({'kind': p['kind'], 'material': material(binds, p['symbol']), 'verts': bv, 'normals': bn, 'shapes': shapes})
         return o
     for mats, leaf in paths(case):
         M = ident()
